@@ -30,7 +30,7 @@ func init() {
 			"(b) every store to a field of query.FileInfo (directly or via a callee that writes its FileInfo/view parameter) writes an object that is provably private: allocated by this function, obtained from a FileInfo constructor, reached through a view whose FileInfo field this function assigned from such a value, or guarded by IsUpdatable()==false (kinds that are never cached) — View.Copy shares the FileInfo pointer with the cache, so any other write changes the cached table",
 		Controls: []string{"CtlMutateRawView", "CtlMutateRawViaCallee", "CtlRawViewEscapes", "CtlSharedFileInfoWrite"},
 		Run:      ruleIso1})
-	Register(&Rule{ID: "R-ISO-2", Props: []string{"C08", "C20"}, Floor: 13,
+	Register(&Rule{ID: "R-ISO-2", Props: []string{"C08", "C20", "C03"}, Floor: 13,
 		Doc:      "every *View returned by ViewMap.Get, ViewMap.GetWithInternalId, InlineTableMap.Get, Session.GetStdinView (and GetTemporaryTable*/GetInlineTable built on them) is nil or the result of (*View).Copy (possibly through another such accessor); every element read of an InlineTableMap and every read of ReferenceScope.RecursiveTmpView is used only as the receiver of Copy, in a nil test, or to hand the same reference to a child scope",
 		Controls: []string{"CtlAccessorReturnsRaw", "CtlInlineTableRaw", "CtlRecursiveTmpViewRaw"},
 		Run:      ruleIso2})
@@ -38,7 +38,7 @@ func init() {
 		Doc:      "View.Copy returns a new View whose Header and RecordSet are results of Header.Copy / RecordSet.Copy of the receiver's fields; Header.Copy, RecordSet.Copy, Record.Copy return a slice made in the call; every element RecordSet.Copy stores is a Record.Copy result (records are not shared between a cached view and its copies)",
 		Controls: []string{"CtlShallowRecordSetCopy", "CtlCopyReturnsReceiver"},
 		Run:      ruleIso3})
-	Register(&Rule{ID: "R-ISO-4", Props: []string{"C08", "C14", "C16", "C20"}, Floor: 3,
+	Register(&Rule{ID: "R-ISO-4", Props: []string{"C08", "C14", "C16", "C20", "C05"}, Floor: 3,
 		Doc:      "no store into an element of a query.Cell, no append to / copy into / in-place sort of one, and no call handing one to a callee that writes its slice parameter, unless the cell was made in the same function (cells are shared between the cache, its copies, cursors and restore points)",
 		Controls: []string{"CtlStoreIntoCell", "CtlStoreIntoCellViaCallee"},
 		Run:      ruleIso4})
